@@ -118,7 +118,7 @@ def enclosed_rules(facts, rep):
     if len(tab) != 5:
         adt = (getattr(facts, "adts", None) or {}).get("std::path::Component")
         tab = {0: "Prefix", 1: "RootDir", 2: "CurDir", 3: "ParentDir", 4: "Normal"}
-    good, msg = _enclosed_by_exploration(f, tab, 5 if rep.tier == "thorough" and rep.cfg is None else 3)
+    good, msg = _enclosed_by_exploration(f, tab, 5 if rep.tier == "thorough" and rep.cfg is None else 4)
     if good:
         ok = True
         w = where(f, f.span)
